@@ -69,9 +69,23 @@ def items(tier, seed):
         allp += [(qt, u, v) for u in us for v in us]
     simple = [("temperature", "degC", "degF"), ("temperature", "K", "degC"), ("temperature", "degF", "K"), ("temperature", "degC", "degC"),
               ("pressure", "psig", "Pa"), ("pressure", "bar", "psig"), ("length", "m", "ft")]
+    # unit symbols of one quantity type that differ only in case (mPa / MPa, mg / Mg ...) are always in, both orders
+    for qt in db.GetQuantityTypes():
+        if qt not in db.categories_to_quantity_types:
+            continue
+        low = {}
+        for u in db.GetUnits(qt):
+            low.setdefault(u.lower(), []).append(u)
+        for grp in low.values():
+            simple += [(qt, u, v) for u in grp for v in grp if u != v]
+    # every unit of the table against the base unit of its quantity type, both orders (one wrong coefficient in one row is enough to break a sum)
+    for qt in db.GetQuantityTypes():
+        if qt in db.categories_to_quantity_types:
+            us = db.GetUnits(qt)
+            simple += [(qt, u, us[0]) for u in us[1:]] + [(qt, us[0], u) for u in us[1:]]
     simple += seeded_sample(allp, 300 if tier == "quick" else 20000, seed)
     for qt, u, v in simple:
-        out.append({"t": "simple", "qt": qt, "A": ["leaf", u, qt], "B": ["leaf", v, qt], "op": rng.choice(["add", "sub"])})
+        out.append({"t": "simple", "qt": qt, "A": ["leaf", u, qt], "B": ["leaf", v, qt], "op": ["add", "sub"][len(out) % 2]})
     for i, c in enumerate(out):
         if i % 5 == 0 and c["t"] != "simple" and "pow" not in json.dumps(c) and not c.get("arr"):
             c["arr"] = ["numpy", "list", "tuple"][(i // 5) % 3]
@@ -174,6 +188,19 @@ def props(cfg, T, obs):
              ("(a+-b)-+b ~ a (value)", z3.And(approx(obs["back"][0], T["x0"], sc), z3.BoolVal(bool(obs["back_same_q"])))),
              ("the augmented forms a += b / a -= b give the same amount and quantity as a + b / a - b, as a new object, operands untouched",
               z3.And(approx(obs["inpl"][0], want, sc), z3.BoolVal(obs["inpl"][1] == obs["r"][1] and bool(obs["inpl_new"]) and bool(obs["kept"]))))]
+        iu, iv = db.GetInfo(cfg["qt"], u), db.GetInfo(cfg["qt"], v)
+        if all(getattr(i.tobase, "__a__", 0.0) == 0.0 and getattr(i.tobase, "__d__", 0.0) == 0.0 for i in (iu, iv)):
+            # scale-only units: the same statement in base-unit magnitudes taken from the to-base factors ALONE (a row whose two directions disagree shows here)
+            from .common import slope_of
+            from symx.core import term
+
+            ku, kv = slope_of(iu.tobase), slope_of(iv.tobase)
+            ma, mb = T["x0"] * ku, T["x1"] * kv
+            scm = zabs(ma) + zabs(mb) + zabs(ku)
+            P.append(("base-unit magnitude of a+-b is magnitude(a) +- magnitude(b), magnitudes read with each unit's to-base factor",
+                      approx(term(obs["r"][0]) * ku, ma + mb if cfg["op"] == "add" else ma - mb, scm)))
+            if obs["comm"] is not None:
+                P.append(("a+b and b+a are the same physical amount (to-base factors)", approx(term(obs["r"][0]) * ku, term(obs["comm"][0]) * kv, scm)))
         return P
     if cfg.get("empty"):
         return [("result is an Array", obs["cls"] == "Array"), ("a += b / a -= b build the same quantity as a + b / a - b", obs["inpl"][1] == obs["r"][1]),
